@@ -691,7 +691,8 @@ class metadata_round_trip:
         lines = m.write_meta_string_list()
         r = OsuMapMeta()
         r._read_meta_string_list(lines)
-        return (r, lines, unidecode(m.title), unidecode(m.artist))
+        # the romanised fields are one-line texts: line breaks that romanising produces (U+2028 / U+2029) count as blanks
+        return (r, lines, unidecode(m.title).replace("\r", " ").replace("\n", " "), unidecode(m.artist).replace("\r", " ").replace("\n", " "))
 
     def ensures_general(m, result):
         r = result[0]
@@ -752,7 +753,7 @@ class metadata_round_trip:
         )
 
     def witnesses(rng):
-        texts = ["", "plain", "a:b", "re: zero - ep 1: start", "  padded  ", "日本語: テスト", "Äö:ü", ":", "x::y"]
+        texts = ["", "plain", "a:b", "re: zero - ep 1: start", "  padded  ", "日本語: テスト", "Äö:ü", ":", "x::y", "two\u2028lines", "par\u2029agraph"]
         for _ in range(150):
             yield dict(m=_mk_meta(
                 audio_file_name=rng.choice(["audio.mp3", "a:b.mp3", "é.ogg"]), audio_lead_in=rng.choice([0, 500, 99999]), preview_time=rng.choice([-1, 0, 123456]),
